@@ -812,7 +812,7 @@ namespace BitSerializer::Convert::Utf
 			for (size_t i = 0; i < inputString.size(); ++i)
 			{
 				// Detecting UTF-32 (LE/BE)
-				if (i % sizeof(Utf32Le::char_type) == 0 && i + sizeof(Utf32Le::char_type) < inputString.size())
+				if (i % sizeof(Utf32Le::char_type) == 0 && i + sizeof(Utf32Le::char_type) <= inputString.size())
 				{
 					// Use `memcpy` because data can be misaligned
 					uint32_t sym;
@@ -832,7 +832,7 @@ namespace BitSerializer::Convert::Utf
 					}
 				}
 				// Detecting UTF-16 (LE/BE)
-				if (i % sizeof(Utf16Le::char_type) == 0 && i + sizeof(Utf16Le::char_type) < inputString.size())
+				if (i % sizeof(Utf16Le::char_type) == 0 && i + sizeof(Utf16Le::char_type) <= inputString.size())
 				{
 					// Use `memcpy` because data can be misaligned
 					uint16_t sym;
